@@ -524,6 +524,29 @@ def qform_check(Q, a, eps, ulp_t):
     return 'bad', worst
 
 
+# S-C04d (NIfTI-2 exact 180 degrees: ValueError / sqrt(eps64) error) is classified only while
+# known_findings.json lists it with status `known`; once it is `fixed` those cases must pass the
+# strict predicate (and the probe S_C04d guards against its return)
+S04D_KNOWN = True
+
+
+def set_s04d_from_findings(findings):
+    global S04D_KNOWN
+    st = [f.get('status') for f in findings if f.get('id') == 'S-C04d']
+    S04D_KNOWN = (not st) or st[0] == 'known'
+
+
+def near180_known(ver, w, axis_aligned, raised):
+    """Known-finding id for a qform read-back that exceeds the strict tolerance (but is within the
+    relaxed bound), or that raised; None = a violation."""
+    w = abs(w) if w is not None else 1.0
+    if S04D_KNOWN and ver == 2 and w <= 1e-7:
+        return None if axis_aligned else 'S-C04d'
+    if raised:
+        return None
+    return 'S-C04c' if w > 0 else None
+
+
 KNOWN_TXT = {
     'S-C04a': 'image given a header whose best affine is np.allclose to, but not equal to, the image affine: '
               'update_header keeps the header transform and the saved/reloaded affine is the header\'s, not the image\'s',
@@ -586,6 +609,42 @@ def apply_edit(img, edit):
 def A_eff(case, o):
     """The affine the image had when it was saved."""
     return o['at_save'] if o.get('at_save') is not None else A_of(case)
+
+
+def coded_string(hdr_like, hdr, ver):
+    """Canonical form of get_sform(coded=True) / get_qform(coded=True) of `hdr_like` (a header or an
+    image), in the model's terms: None-ness, code, and for a returned matrix the header fields it
+    must be made of (the matrix itself is compared with fetch(srow) / the uncoded getter)."""
+    from nibabel.spatialimages import HeaderDataError
+    st = nifti_hdr_state(hdr, ver)
+    with warnings.catch_warnings():
+        warnings.simplefilter('ignore')
+        S, sc = hdr_like.get_sform(coded=True)
+        try:
+            Q, qc = hdr_like.get_qform(coded=True)
+        except (ValueError, HeaderDataError) as e:
+            Q, qc = 'raised', int(hdr['qform_code'])
+    if S is None:
+        s_ = 'none'
+    else:
+        E = np.eye(4)
+        E[:3, :] = np.array([fieldvalue(b, ver) for b in st['srow']]).reshape(3, 4)
+        s_ = 'some' + zl(st['srow']) if same_bits(S, E) else 'some<matrix is not fetch(srow)>'
+    if Q is None:
+        q_ = 'none'
+    elif isinstance(Q, str):
+        q_ = 'some' + str(st['p0']) + zl(st['pix']) + zl(st['quat']) + zl(st['qoff'])   # refusal while evaluating
+    else:
+        with warnings.catch_warnings():
+            warnings.simplefilter('ignore')
+            ok = same_bits(Q, hdr.get_qform())
+        q_ = ('some' + str(st['p0']) + zl(st['pix']) + zl(st['quat']) + zl(st['qoff'])) if ok else 'some<matrix is not get_qform()>'
+    return f'ok S:{s_}:{int(sc)} Q:{q_}:{int(qc)}'
+
+
+def coded_line(cid, st):
+    return (f"{cid} coded {st['sc']} {st['qc']} {zl(st['srow'])} {st['p0']} {zl(st['pix'])} {zl(st['quat'])} "
+            f"{zl(st['qoff'])}")
 
 
 # ----------------------------------------------------------------------------- NIfTI image scenario
@@ -658,6 +717,8 @@ def obs_nifti(case):
     o['loaded_shape'] = [int(x) for x in loaded.shape]
     o['state2'] = nifti_hdr_state(loaded.header, ver)
     o['loaded_be'] = loaded.header.endianness == '>'
+    o['coded_hdr'] = coded_string(loaded.header, loaded.header, ver)
+    o['coded_img'] = coded_string(loaded, loaded.header, ver)
     return o
 
 
@@ -724,7 +785,9 @@ def lines_nifti(cid, case, o, ker):
     exp2 = (f"ok {s2['sc']} {s2['qc']} {s2['p0']} {zl(s2['pix'])} {zl(s2['quat'])} {zl(s2['qoff'])} {zl(s2['srow'])} "
             f"{best_string(s2b)}")
     return [(line, exp, 'saved header (codes, qform_code..srow_z block, pixdim[0:4], shape, source of best affine)'),
-            (line2, exp2, 'parse of the saved affine block')]
+            (line2, exp2, 'parse of the saved affine block'),
+            (coded_line(cid + '.ch', s2), o['coded_hdr'], 'header.get_sform/get_qform(coded=True) conventions'),
+            (coded_line(cid + '.ci', s2), o['coded_img'], 'image.get_sform/get_qform(coded=True) conventions')]
 
 
 # ----------------------------------------------------------------------------- header-level API scenario
@@ -779,26 +842,15 @@ def pred_hdr(case, o):
         if r['qfac'] != want_qfac:
             res.append((f'NIfTI-{ver}: qfac {r["qfac"]} is not the sign of det', None))
         if r['Q'] is None:
-            w = abs(a['w'])
-            if ver == 2 and w <= 1e-7 and not case.get('axis_aligned'):
-                res.append((f'NIfTI-2 get_qform raised: {r["exc"]}', 'S-C04d'))
-            else:
-                res.append((f'NIfTI-{ver}: get_qform raised {r["exc"]} for a rotation+zoom affine', None))
+            res.append((f'NIfTI-{ver}: get_qform raised {r["exc"]} for a rotation+zoom affine',
+                        near180_known(ver, a['w'], case.get('axis_aligned'), True)))
             continue
         if r['qc'] != case['qcode']:
             res.append((f'NIfTI-{ver}: qform code not preserved', None))
         cl, worst = qform_check(r['Q'], a, eps, eps)
         if cl == 'relaxed':
-            w = abs(a['w'])
-            if ver == 2 and w <= 1e-7:
-                if case.get('axis_aligned'):
-                    res.append((f'NIfTI-2: axis-aligned 180 degree qform read back with error {worst:.3g} eps', None))
-                else:
-                    res.append((f'NIfTI-2 qform of an exact 180 degree rotation read back with error {worst:.3g} eps64', 'S-C04d'))
-            elif w > 0:
-                res.append((f'NIfTI-{ver} qform near 180 degrees (|w|={w:.3g}) read back with error {worst:.3g} eps', 'S-C04c'))
-            else:
-                res.append((f'NIfTI-{ver}: exact 180 degree qform read back with error {worst:.3g} eps', None))
+            res.append((f'NIfTI-{ver} qform at / near 180 degrees (|w|={abs(a["w"]):.3g}) read back with error {worst:.3g} eps',
+                        near180_known(ver, a['w'], case.get('axis_aligned'), False)))
         elif cl == 'bad':
             res.append((f'NIfTI-{ver}: qform read back with error {worst:.3g} eps (column-relative) or wrong translation', None))
     return res
@@ -826,6 +878,7 @@ def obs_hist(case):
             a0, a1, p0, p1 = block_offsets(H)
             r['ablock'], r['pblock'] = bb[a0:a1], bb[p0:p1]
             r['state2'] = nifti_hdr_state(h, ver)
+            r['coded'] = coded_string(h, h, ver)
             r['qfac'] = float(h['pixdim'][0])
             r['S'] = np.array(h.get_sform())
             try:
@@ -874,17 +927,12 @@ def pred_hist(case, o):
         w = abs(a['w'])
         ax = case['affs'][lastq[-1]].get('axis_aligned')
         if r['Q'] is None:
-            res.append((f'NIfTI-{ver} get_qform raised: {r.get("exc")}',
-                        'S-C04d' if (ver == 2 and w <= 1e-7 and not ax) else None))
+            res.append((f'NIfTI-{ver} get_qform raised: {r.get("exc")}', near180_known(ver, w, ax, True)))
             continue
         cl, worst = qform_check(r['Q'], a, eps, eps)
         if cl == 'relaxed':
-            if ver == 2 and w <= 1e-7 and not ax:
-                res.append((f'NIfTI-2 qform of an exact 180 degree rotation read back with error {worst:.3g} eps64', 'S-C04d'))
-            elif w > 0 and not (ver == 2 and w <= 1e-7):
-                res.append((f'NIfTI-{ver} qform near 180 degrees (|w|={w:.3g}) read back with error {worst:.3g} eps', 'S-C04c'))
-            else:
-                res.append((f'NIfTI-{ver}: exact 180 degree qform read back with error {worst:.3g} eps', None))
+            res.append((f'NIfTI-{ver} qform at / near 180 degrees (|w|={w:.3g}) read back with error {worst:.3g} eps',
+                        near180_known(ver, w, ax, False)))
         elif cl == 'bad':
             res.append((f'NIfTI-{ver}: after the history get_qform differs from the last affine given to set_qform '
                         f'({worst:.3g} eps, column-relative) or wrong translation', None))
@@ -917,6 +965,8 @@ def lines_hist(cid, case, o):
             s2 = dict(r['state2'])
             exp = f"ok {s2['qc']} {s2['sc']} {hx(r['ablock'])} {hx(r['pblock'])} {best_string(s2)}"
         out.append((line, exp, 'header after a history of set_sform/set_qform calls (codes, affine block, pixdim[0:4])'))
+        out.append((coded_line(f'{cid}.c{ver}', r['state2']), r['coded'],
+                    'get_sform/get_qform(coded=True) conventions after a history'))
     return out
 
 
@@ -990,9 +1040,8 @@ def pred_imgq(case, o):
     eps = EPS32 if ver == 1 else EPS64
     w = abs(a['w'])
     if o['refused']:
-        if ver == 2 and w <= 1e-7 and not case.get('axis_aligned'):
-            return 'NIfTI-2 image.set_qform raised: ' + o['refused'], 'S-C04d'
-        return 'image.set_qform raised for a rotation+zoom affine: ' + o['refused'], None
+        return ('image.set_qform raised for a rotation+zoom affine: ' + o['refused'],
+                near180_known(ver, w, case.get('axis_aligned'), True))
     if not same_bits(o['loaded_affine'], o['at_save']):
         return 'reloaded affine is not the affine the image had when saved (qform only)', None
     if o['codes'] != (0, case['qcode']) or o['sq'][0] is not None or o['sq'][1] != case['qcode']:
@@ -1001,10 +1050,9 @@ def pred_imgq(case, o):
     if cl == 'ok':
         return None, None
     if cl == 'relaxed':
-        if ver == 2 and w <= 1e-7 and not case.get('axis_aligned'):
-            return f'NIfTI-2 qform-only image, exact 180 degrees: error {worst:.3g} eps64', 'S-C04d'
-        if w > 0 and not (ver == 2 and w <= 1e-7):
-            return f'qform-only image near 180 degrees (|w|={w:.3g}): error {worst:.3g} eps', 'S-C04c'
+        k = near180_known(ver, w, case.get('axis_aligned'), False)
+        if k:
+            return f'qform-only image at / near 180 degrees (|w|={w:.3g}): error {worst:.3g} eps', k
     return f'qform-only image reloads with error {worst:.3g} eps (column-relative) or wrong translation', None
 
 
@@ -1324,7 +1372,22 @@ def decision_tables(chk, lines, expect):
                 if not ok:
                     chk.violation('property_violation', case=dict(scn='best', ver=ver, sc=sc, qc=qc),
                                   impl_output=f'source {src}, coded sform {cs[1]}, coded qform {cq[1]}',
-                                  predicate=f'header with sform_code={sc}, qform_code={qc}: best affine must come from {want}')
+                                  predicate=f'header with sform_code={sc}, qform_code={qc}: best affine must come from {want} and the coded getters must return (None, 0) exactly for code 0, (matrix, code) otherwise')
+        # coded getters never evaluate a transform whose code is 0 (even with an invalid qfac / quaternion)
+        for qfac in (0.0, 2.0, -1.0, 1.0):
+            for qc in (0, 1):
+                for sc in (0, 3):
+                    h = H()
+                    h.set_sform(S, sc)
+                    h.set_qform(Qa, qc)
+                    h['pixdim'][0] = qfac
+                    h['quatern_b'] = 0.9 if qfac == 2.0 else float(h['quatern_b'])
+                    h['quatern_c'] = 0.9 if qfac == 2.0 else float(h['quatern_c'])
+                    cid = f'cg{ver}.{qfac}.{qc}.{sc}'
+                    lines.append(coded_line(cid, nifti_hdr_state(h, ver)))
+                    expect[cid] = (coded_string(h, h, ver), 'coded getters with invalid qform fields',
+                                   dict(scn='coded', ver=ver, qfac=qfac, qc=qc, sc=sc))
+                    chk.count(key=('coded', ver, qfac, qc, sc), tag='decision:coded')
         for which in ('sform', 'qform'):
             for old in codes:
                 for code in [None] + list(range(-1, max(codes) + 3)) + ['aligned', 'unknown', 'mni', 'bogus']:
@@ -1425,6 +1488,7 @@ def run(chk: Check):
                     'K by eigh) with the contracts stated in LemmasR.v',
                     'ideal arithmetic: ModelR.v is over Coq R; the float layer of quat2mat/mat2quat/set_qform/get_qform/MGH '
                     'is measured against the stated tolerances, not proved']
+    set_s04d_from_findings(chk.findings)
     chk.build(gen_tables=gen_tables)
     chk.run_probes()
     if not chk.model_ok:
@@ -1465,7 +1529,8 @@ def run(chk: Check):
             n_refused += 1
             chk.refusal(o['refused'].split(':')[1])
             w = a['w']
-            if o['ver'] == 2 and 'w2 should be positive' in o['refused'] and w is not None and abs(w) <= 1e-7:
+            if ('w2 should be positive' in o['refused'] and w is not None
+                    and near180_known(o['ver'], w, a['axis_aligned'], True) == 'S-C04d'):
                 chk.known('S-C04d', KNOWN_TXT['S-C04d'])
                 chk.tagc('known:S-C04d')
             else:
@@ -1654,8 +1719,17 @@ def run(chk: Check):
                           f'with Some (h2, _) => list_beq Z Z.eqb (affine_block {tb(be)} n2_cw n2_fw h2) {ab} | None => false end',
                           f'nifti {cid}'))
             nv += 1
+    # NumPy's float64 -> float32 cast and back == Flocq narrow / widen (C04_sform_float32_exact)
+    fvals = [0.1, -0.1, 1.0, 1e-40, -3e-46, 1e39, -1e39, 16777217.0, 0.0, -0.0, 3.4028235677973366e38,
+             1.401298464324817e-45, 2.5e-45, 1.0000000596046448, 1.00000017881393433]
+    fvals += [float(x) for x in core[9]['A'][:3, :].ravel()] + [float(x) for x in rand[0]['A'][:3, :].ravel()]
+    fvals += [float(x) for x in rand[min(5, len(rand) - 1)]['A'][:3, :].ravel()]
+    for v in fvals:
+        b32_ = fieldbits(v, 1)
+        pairs.append((f'narrow_bits_ok {f64bits(v)} {b32_}', f'float32 cast of {v!r}'))
+        pairs.append((f'widen_bits_ok {b32_} {f64bits(fieldvalue(b32_, 1))}', f'float64 of float32 {v!r}'))
     imports = ('From Coq Require Import ZArith List Bool.\n'
-               'From NV Require Import Base.Bytes C04.Tables C04.Model.\n'
+               'From NV Require Import Base.Bytes C04.Tables C04.Model C04.LemmasF32.\n'
                'Import ListNotations. Open Scope Z_scope.\n'
                'Scheme Equality for list.\n')
     ncase, bad = vm_crosscheck(PROP, imports, pairs)
@@ -1669,6 +1743,7 @@ def run(chk: Check):
 
 def replay(chk, obj):
     ensure_impl_path()
+    set_s04d_from_findings(chk.findings)
     c = obj.get('case')
     if not isinstance(c, dict) or 'scn' not in c:
         if obj.get('inputs', {}) and obj['inputs'].get('probe_fn'):
